@@ -147,6 +147,22 @@ Theorem writeto_writes_only_chunks :
   map (fun p => list_sum (map loose_writes (p_body p))) (filter (fun p => String.eqb (p_method p) "WriteTo") observers) = [0].
 Proof. vm_compute. reflexivity. Qed.
 
+(* ... and every statement of WriteTo is inside the translated fragment: a write that goes past fw (a direct
+   fmt.Fprint* on the underlying writer, say) would show up as an untranslated statement *)
+Fixpoint unknowns (s : gstmt) : nat :=
+  match s with
+  | SUnknown _ => 1
+  | SIf _ _ t e => list_sum (map unknowns t) + list_sum (map unknowns e)
+  | SFor _ _ _ b | SForMap _ _ _ b | SChunk b => list_sum (map unknowns b)
+  | SFor3 i _ p b => unknowns i + unknowns p + list_sum (map unknowns b)
+  | STypeSwitch _ _ cs d => list_sum (map (fun c => list_sum (map unknowns (snd c))) cs) + list_sum (map unknowns d)
+  | SSwitch _ cs d => list_sum (map (fun c => list_sum (map unknowns (snd c))) cs) + list_sum (map unknowns d)
+  | _ => 0
+  end.
+Theorem writeto_has_no_untranslated_statement :
+  map (fun p => list_sum (map unknowns (p_body p))) (filter (fun p => String.eqb (p_method p) "WriteTo") observers) = [0].
+Proof. vm_compute. reflexivity. Qed.
+
 Example observers_counted : List.length observers = 491.
 Proof. vm_compute. reflexivity. Qed.
 Print Assumptions observers_write_only_the_type_cache.
